@@ -289,7 +289,8 @@ class NetStation(_StationBase):
         self.simbus.transmit(self, can_id, data, ext, rtr, dlc=msg.dlc)
 
     def send_periodic(self, msgs, period, duration=None, store_task=True, **kw):
-        task = (ModifiableTask if self.modifiable else PlainTask)(self, msgs, period)
+        cls = ModifiableCopyTask if self.modifiable == "copy" else ModifiableTask if self.modifiable else PlainTask
+        task = cls(self, msgs, period)
         self.tasks.append(task)
         self.task_log.append(task)
         return task
@@ -385,6 +386,28 @@ class ModifiableTask(_TaskBase):
     def current(self):
         m = self.msg
         return m.arbitration_id, bytes(m.data), m.is_extended_id, m.is_remote_frame
+
+
+class ModifiableCopyTask(PlainTask if False else _TaskBase):
+    """Like socketcan's BCM task: the frame lives in the kernel; ``modify_data``
+    replaces it, nothing else does."""
+
+    def __init__(self, station, msgs, period):
+        super().__init__(station, msgs, period)
+        self._snap = self._copy(self.msg)
+
+    @staticmethod
+    def _copy(m):
+        return (m.arbitration_id, bytes(m.data), m.is_extended_id, m.is_remote_frame)
+
+    def modify_data(self, msgs):
+        msg = msgs[0] if isinstance(msgs, (list, tuple)) else msgs
+        if msg.arbitration_id != self._snap[0]:
+            raise ValueError("The arbitration ID of new cyclic messages cannot be changed")
+        self._snap = self._copy(msg)
+
+    def current(self):
+        return self._snap
 
 
 class PlainTask(_TaskBase):
